@@ -304,6 +304,8 @@ fn atom_strings(max: usize) -> Vec<Vec<usize>> {
 const LENIENT_TOKENS: &[&[u8]] = &[
     b"<svg>", b"</svg>", b"<svg xmlns=\"http://www.w3.org/2000/svg\">", b"<svg/>", b"<svg wh=\"10\" text=\"t\"/>", b"<rect wh=\"2\"/>", b"<rect wh=\"2\" a=\"1\" a=\"2\"/>", b"<rect wh=2/>", b"<g>", b"</g>",
     b"<text>", b"</text>", b"x", b" ", b"&", b"&nope;", b"&#1;", b"\x01", b"<!-- a -- b -->", b"<re&ct/>", b"<?xml version=\"1.0\"?>", b"<!DOCTYPE svg [<!ENTITY e \"v\">]>", b"&e;", b"<![CDATA[c]]>",
+    // well-formed DOCTYPEs with a '>' inside a quoted literal
+    b"<!DOCTYPE svg [<!ENTITY arrow \"->\">]>", b"<!DOCTYPE svg SYSTEM \"a>b\">",
 ];
 
 /// The kind of ill-formedness the independent reader reports, reduced to a stable category.
